@@ -398,7 +398,12 @@ def validate_native(h, results, sample=None, seed=0):
     odd = [r for r in rs if r.status not in ('ok', 'panic')]
     mism = []; cnt = 0
     if normal:
-        nat = harness.run_native(h, [(r.entry, [h.tokens[k] for k in r.witness], r.script) for r in normal], timeout=120)
+        cases = [(r.entry, [h.tokens[k] for k in r.witness], r.script) for r in normal]
+        nat = harness.run_native(h, cases, timeout=120)
+        if nat and all(o.get('timeout') for o in nat):
+            # the whole batch timed out: a loaded machine, not a verdict about any path; retry once with a generous limit
+            nat = harness.run_native(h, cases, timeout=900)
+            if nat and all(o.get('timeout') for o in nat): return 0, []
         for r, o in zip(normal, nat):
             d = compare_native(h, r, o); cnt += 1
             if d: mism.append((r, d))
